@@ -34,6 +34,9 @@ class Plan:
             self.events.append((kind, detail))
             return None
         if i == self.target:
+            if self.mode == "short":
+                # the OS accepts only part of this write() and reports the count (file-size limit, full disk, signal): no death
+                return ("short", max(1, min(self.offset, detail - 1))) if (kind == "write" and detail > 1) else None
             if kind == "write" and self.offset:
                 return min(self.offset, detail)
             os._exit(137)
@@ -56,6 +59,8 @@ class KillRaw(io.RawIOBase):
     def write(self, data):
         mv = memoryview(data).cast("B")
         part = self.plan.hit("write", len(mv))
+        if isinstance(part, tuple):
+            return self.raw.write(mv[:part[1]])          # short write: the caller is told how much was taken
         if part is not None:
             self.raw.write(mv[:part])
             os._exit(137)
@@ -120,6 +125,10 @@ def install(plan, directory, buffer_size=io.DEFAULT_BUFFER_SIZE):
         if any(c in mode for c in "wax+") and under(file):
             plan.hit("open", (os.path.basename(os.fspath(file)), mode))
             raw = real_open(file, mode if "b" in mode else mode + "b", buffering=0)
+            buffering = k.get("buffering", a[0] if a else -1)
+            if buffering == 0:
+                # the code asked for an unbuffered file: it talks to the raw layer itself (and has to deal with short writes itself)
+                return Proxy(KillRaw(raw, plan), plan, os.path.basename(os.fspath(file)))
             return Proxy(io.BufferedWriter(KillRaw(raw, plan), buffer_size=buffer_size), plan, os.path.basename(os.fspath(file)))
         return real_open(file, mode, *a, **k)
 
